@@ -24,7 +24,7 @@ from ..recipes import nlpgen as NG
 from ..recipes import ref as R
 
 LEVEL = "exploration"
-BUDGET_S = {"quick": 85, "thorough": 1500}
+BUDGET_S = {"quick": 420, "thorough": 1500}
 N_RANDOM = {"quick": 40, "thorough": 1500}
 BOUNDS_METHODS = {"L-BFGS-B", "TNC", "SLSQP", "Powell", "trust-constr", "Nelder-Mead"}
 CHECK_FIRST = 25
